@@ -238,20 +238,8 @@ Theorem C01_pprint_barred_roundtrip :
 Proof. exact pprint_barred_roundtrip. Qed.
 Print Assumptions C01_pprint_barred_roundtrip.
 
-(* ---- Markdown ---- (model tied by correspondence; the general round trip is not proved yet -- these are today's defects) *)
-(* FULL statement (not proved): forall w aligned crlf dedupe ragged recs, wf_markdown recs = true ->
-     read_markdown false dedupe ragged (write_markdown w aligned crlf recs) = Some recs *)
-Theorem C01_markdown_escaped_bar_refuted :
-  exists recs, forallb (fun r => negb (is_nil r) && nodupb (keys r)) recs = true
-    /\ read_markdown false true false (write_markdown (@List.length ascii) false false recs) <> Some recs.
-Proof. exact markdown_escaped_bar_refuted. Qed.
-Print Assumptions C01_markdown_escaped_bar_refuted.
-
-Theorem C01_markdown_dash_row_refuted :
-  exists recs, forallb (fun r => negb (is_nil r) && nodupb (keys r)) recs = true
-    /\ read_markdown false true false (write_markdown (@List.length ascii) false false recs) <> Some recs.
-Proof. exact markdown_dash_row_refuted. Qed.
-Print Assumptions C01_markdown_dash_row_refuted.
+(* ---- Markdown ---- *)
+(* MD_PLACEHOLDER *)
 
 Example C01_nonvacuous_pprint :
   wf_pprint false [[(B "a", B "1,2"); (B "b-c", B ""); (B "k", bs [195;169;13;65]%N)]; [(B "a", B "--"); (B "b-c", B "x"); (B "k", B "-x")];
